@@ -8,7 +8,7 @@ from pbt.core import Failure
 
 ID = "C04"
 RULE = ("A source file from the grammars with valid non-canonical spellings (leading zeros, '+5', scientific floats, CRLF, optional SAM tags, "
-        "FASTQ '+name' lines, header lines), read lazily, for BED3, BED6, narrowPeak, VCF, SAM, FASTQ, two-line FASTA (and GTF, which reads eagerly). "
+        "FASTQ '+name' lines, header lines), read lazily, for BED3, BED6, narrowPeak, VCF (with and without typed INFO declarations), SAM, FASTQ, two-line FASTA (and GTF, which reads eagerly). "
         "A selection program of up to 6 steps over a pool of tables: slice with any start/stop/step (negative too), boolean mask, integer list "
         "with repeats and negatives, a same-length permutation (reversal, rotation, swapped neighbours), np.concatenate of two earlier results, bnp.replace of one field with a new array in the column's own "
         "representation; observation steps anywhere in the program write a table with NpBufferedWriter or convert it to rows (so later steps see what an earlier write did to shared buffers); the final table is always written. "
@@ -30,13 +30,13 @@ ASSUMPTIONS = [
     "BAM table raises; that is the tolerant class 'bam-write-unsupported'. bnp.replace is not generated for BAM for the same reason.",
 ]
 REQUIRED_CLASSES = ["negative-step", "repeats", "empty-selection", "select-select-concat", "replace-then-select", "select-then-replace",
-                    "crlf", "noncanonical-int", "unmodified", "modified", "observed-then-continued", "write-and-rows", "same-length-permutation",
+                    "crlf", "noncanonical-int", "unmodified", "modified", "observed-then-continued", "write-and-rows", "same-length-permutation", "typed-info", "typed-info-read-and-replace",
                     "bam", "bam-write-selection", "bam-observe-after-write", "bam-get-then-write"]
-BOUNDS = {"quick": "500 (file, program) pairs for each of 8 text formats, up to 10 records, programs of up to 6 steps; 400 BAM pairs of up to 6 records",
+BOUNDS = {"quick": "500 (file, program) pairs for each of 9 text format variants, up to 10 records, programs of up to 6 steps; 400 BAM pairs of up to 6 records",
           "thorough": "10000 pairs per text format, up to 30 records, programs of up to 8 steps; 9600 BAM pairs of up to 16 records"}
 BUDGET_S = {"quick": 200, "thorough": 1500}
 
-FMTS = ["bed3", "bed6", "narrowpeak", "vcf", "sam", "fastq", "fasta2", "gtf"]
+FMTS = ["bed3", "bed6", "narrowpeak", "vcf", "vcf-typed", "sam", "fastq", "fasta2", "gtf"]
 
 # replaceable fields: name -> (column index in the record, kind)
 REPL = {
@@ -214,6 +214,10 @@ def classify(case):
     cl = sorted(set(cl))
     if case.get("crlf"):
         cl.append("crlf")
+    if case.get("info_decl"):
+        cl.append("typed-info")
+        if any(k == "rows" for k in kinds) and "replace" in kinds:
+            cl.append("typed-info-read-and-replace")
     flat = [x for r in case["records"] for x in r]
     if any((x[:1] == "+" and x[1:].isdigit()) or (len(x) > 1 and x[0] == "0" and x.isdigit()) for x in flat):
         cl.append("noncanonical-int")
@@ -405,8 +409,13 @@ def op_strategy(fmt):
 @st.composite
 def c04_case(draw, fmt, max_records, max_steps):
     canonical_ints = fmt == "gtf"
-    case = draw(S.file_case(fmt, min_records=1, max_records=max_records, W=10, canonical=canonical_ints,
-                            crlf=False if fmt == "gtf" else None))
+    if fmt == "vcf-typed":
+        # a VCF whose header declares typed INFO keys: reading the INFO column parses it key by key
+        case = draw(S.vcf_case("vcf", max_records, typed=True))
+        fmt = "vcf"
+    else:
+        case = draw(S.file_case(fmt, min_records=1, max_records=max_records, W=10, canonical=canonical_ints,
+                                crlf=False if fmt == "gtf" else None))
     if fmt == "gtf":
         # GTF reads eagerly by design: canonical spellings, LF, no header (an eager table loses its header context on replace)
         case["header"] = []
